@@ -244,6 +244,40 @@ def independent_tokens(ctx, dist):
                     cases.append("jwsverio\t%s\t-\t%s\t0\t%s\t%s" % (G.dumps(tok), G.dumps(pub), ("1,%d" % (len(text) - 1)) if len(text) > 1 else "-", text.hex() or "-"))
                     want.append(w)
                     what.append((alg, h2))
+    # the payload TEXT is what was signed, all of it: a genuine token whose payload member is continued behind an embedded
+    # NUL (a JSON string may hold one) presents another text and must not verify, one-shot and streaming alike
+    for alg in ("ES256", "RS256", "ES512"):
+        k = keys.get(G.SIGN_KEY_FOR[alg])
+        if not k:
+            continue
+        made = G.harness(ctx["bdir"], ["jwssig\t%s\t%s\t%s" % (G.dumps({"payload": G.b64(b"hello")}), G.dumps({"protected": {"alg": alg}}), G.dumps(k))])[0]
+        if not made.startswith("{"):
+            continue
+        tok = json.loads(made)
+        for tail in ("\u0000", "\u0000dHJhbnNmZXI", "\u0000" + tok["payload"]):
+            t2 = dict(tok, payload=tok["payload"] + tail)
+            cases.append("jwsver\t%s\t-\t%s\t0" % (G.dumps(t2), G.dumps(G.pub_of(k))))
+            want.append("F")
+            what.append((alg, "a payload continued behind an embedded NUL"))
+            text = t2["payload"].encode()
+            cases.append("jwsverio\t%s\t-\t%s\t0\t%d\t%s" % (G.dumps(t2), G.dumps(G.pub_of(k)), len(text), text.hex()))
+            want.append("F")
+            what.append((alg, "a payload continued behind an embedded NUL"))
+    # signature objects given as an ARRAY paired with a key array: pair i is (sigs[i], keys[i]); an unusable earlier pair
+    # (a key of another type) must not shift the pairing of the later ones (any-mode)
+    hk = G.oct_key(rnd, 32)
+    ek = keys.get("P-256")
+    rk = keys.get("RSA2048")
+    if ek and rk:
+        made = G.harness(ctx["bdir"], ["jwssig\t%s\t%s\t%s" % (G.dumps({"payload": G.b64(b"pairs")}), G.dumps([{"protected": {"alg": "ES256"}}, {"protected": {"alg": "HS256"}}]), G.dumps([ek, hk]))])[0]
+        if made.startswith("{"):
+            tok = json.loads(made)
+            sigs = tok["signatures"]
+            for ks, all_, w in (([G.pub_of(ek), hk], "1", "T"), ([G.pub_of(ek), hk], "0", "T"), ([G.pub_of(rk), hk], "0", "T"), ({"keys": [G.pub_of(rk), hk]}, "0", "T"),
+                                ([G.pub_of(rk), hk], "1", "F"), ([hk, G.pub_of(ek)], "0", "F"), ([dict(G.pub_of(ek), key_ops=["sign"]), hk], "0", "T")):
+                cases.append("jwsver\t%s\t%s\t%s\t%s" % (made, G.dumps(sigs), G.dumps(ks), all_))
+                want.append(w)
+                what.append(("sigs[]", "signature objects paired with keys by position"))
     outs = G.harness(ctx["bdir"], cases)
     for c, o, w, (alg, h2) in zip(cases, outs, want, what):
         got = "T" if o.endswith("T") and not o.startswith("CRASH") else "F"
@@ -251,7 +285,8 @@ def independent_tokens(ctx, dist):
             rep.violation("crash:" + o[:80], "crash or sanitizer report: " + o, {"case": c[:3000]})
         elif got != w:
             rep.violation("independent-token:%s:%s" % ("rejected" if w == "T" else "accepted", alg),
-                          "a %s token signed outside the library over %s(signing input) is %s" % (alg, h2, "rejected (it is the genuine construction)" if w == "T" else "accepted (the algorithm demands another digest)"),
+                          ("a %s token signed outside the library over %s(signing input) is %s" % (alg, h2, "rejected (it is the genuine construction)" if w == "T" else "accepted (the algorithm demands another digest)"))
+                          if h2.startswith("sha") else "%s: %s -- verification %s" % (alg, h2, "fails" if w == "T" else "succeeds"),
                           {"case": c[:3000], "implementation": o})
     dist["tokens signed outside the library (python ECDSA / PKCS#1 v1.5), right and wrong digest"] = len(cases)
     return len(cases)
